@@ -13,6 +13,7 @@
 (*   Finish                  end of _match_sequences (flag None -> True)   *)
 (*   McmcStep(i,j,g1,g2,acc) _mcmc_step / _pairwise_reshuffle              *)
 (*   Yield(wts)              one turn of the `while True` loop of sample   *)
+(*   Resume                  the consumer calls next() again               *)
 (* Nodes are the code's indices (0..N-1); `lab` maps them back to labels.  *)
 (* A disabled action = the code raises there (no sample is produced).      *)
 (***************************************************************************)
@@ -54,8 +55,9 @@ ExtractOK(rem, size, pad, chosen) ==
      ELSE IF pad THEN /\ P = Pos(rem)                        \* all that is left ...
                       /\ Z \subseteq Zero(rem)               \* ... padded with zero-degree nodes
                       /\ Cardinality(Z) = size - Avail(rem)  \* (too few of them: rng.choice raises)
-     ELSE /\ Avail(rem) >= 1                                 \* (nothing at all: set.union() raises)
-          /\ chosen = (IF Avail(rem) = 1 THEN {} ELSE Pos(rem))   \* shrunk; never a singleton
+     ELSE chosen = (IF Avail(rem) <= 1 THEN {} ELSE Pos(rem))     \* shrunk; never a singleton
+          \* (with no positive key at all in nodes_with_deg, i.e. an all-zero degree sequence,
+          \*  set.union() of nothing raises instead of returning {}: over-approximated here)
 \* only nodes chosen with a positive remaining degree are decremented
 DecOn(rem, P) == [n \in DOMAIN rem |-> IF n \in P THEN rem[n] - 1 ELSE rem[n]]
 ExtractRem(rem, chosen) == DecOn(rem, chosen \cap Pos(rem))
@@ -99,9 +101,12 @@ CleanYield(L, wts) == NoCoincidence(L) /\ \A i \in DOMAIN L : wts[i] > 0
 (* mode "init" (initial_hyg), "seqs" (deg_seq and dim_seq given), "model"     *)
 (* (nothing given), "partial" (one of the two given: not conditioned).        *)
 Conditioned(cnd, flag) == cnd.mode = "init" \/ (cnd.mode = "seqs" /\ flag = "yes")
+PositiveWeights(W) == \A e \in DOMAIN W : W[e] >= 1
+SizesAtLeastTwo(W) == \A e \in DOMAIN W : Cardinality(e) >= 2
+SizesAtMostMax(cnd, W) == cnd.mode = "model" => \A e \in DOMAIN W : Cardinality(e) <= cnd.maxsize
+KnownNodes(labels, W) == \A e \in DOMAIN W : e \subseteq labels
 WellFormedOut(cnd, labels, W) ==
-  /\ \A e \in DOMAIN W : W[e] >= 1 /\ Cardinality(e) >= 2 /\ e \subseteq labels
-  /\ cnd.mode = "model" => \A e \in DOMAIN W : Cardinality(e) <= cnd.maxsize
+  PositiveWeights(W) /\ SizesAtLeastTwo(W) /\ SizesAtMostMax(cnd, W) /\ KnownNodes(labels, W)
 DegNotExceeded(cnd, W)  == \A n \in DOMAIN cnd.deg : HDeg(W, n) <= cnd.deg[n]
 SizeNotExceeded(cnd, W) == \A z \in {Cardinality(e) : e \in DOMAIN W} : HCount(W, z) <= Cnt(cnd.sizes, z)
 ExactOut(cnd, W) == /\ \A n \in DOMAIN cnd.deg : HDeg(W, n) = cnd.deg[n]
@@ -155,17 +160,21 @@ Finish ==
 
 \* rng.choice(len(hye_list), size=2, replace=False) raises with fewer than two hyperedges
 McmcStep(i, j, g1, g2, accepted) ==
-  /\ phase = "run" /\ i \in DOMAIN chain /\ j \in DOMAIN chain /\ i # j
+  /\ phase = "run" /\ ~out.ok /\ i \in DOMAIN chain /\ j \in DOMAIN chain /\ i # j
   /\ Reshuffle(chain[i], chain[j], g1, g2)
   /\ chain' = Moved(chain, i, j, g1, g2, accepted)
-  /\ out' = NoOut /\ clean' = FALSE
-  /\ UNCHANGED <<rem, todo, fixed, flag, pad, keys, phase, lab>>
+  /\ UNCHANGED <<rem, todo, fixed, flag, pad, keys, phase, lab, out, clean>>
 
 Yield(wts) ==
-  /\ phase = "run"
+  /\ phase = "run" /\ ~out.ok
   /\ LET L == chain \o fixed IN
      /\ DOMAIN wts = DOMAIN L
      /\ out' = [ok |-> TRUE, W |-> YieldOut(L, wts, lab)]
      /\ clean' = CleanYield(L, wts)
+  /\ UNCHANGED <<rem, todo, chain, fixed, flag, pad, keys, phase, lab>>
+
+\* the consumer asks for the next sample: the generator goes on from the same chain
+Resume ==
+  /\ out.ok /\ out' = NoOut /\ clean' = FALSE
   /\ UNCHANGED <<rem, todo, chain, fixed, flag, pad, keys, phase, lab>>
 =============================================================================
